@@ -711,7 +711,71 @@ def c19_groups(mir, ctx):
                                                note="parent=%s slot=%d child=%s" % (pname, slot, cname)))
     g.witness.append(Query("adeq_w", ["true"], "sat"))
     groups.append(g)
+    groups.append(c19_join_operand_group(mir, ctx))
     return groups
+
+
+def _c19_join_confirm(model, native):
+    out = native("native::c19::replay_c19_join", {})
+    if not out.get("_ran"):
+        return None, "native replay did not run"
+    return (out.get("differs") == 1), "real Display: %s" % (out.get("witness") or "all join operands printed correctly")
+
+
+def c19_join_operand_group(mir, ctx):
+    """Select::format_for_join: a join operand may be printed as a bare table name only when it IS
+    a bare table (no projection, no condition, not itself a join); otherwise it must be printed as
+    a parenthesised sub-select -- else the text names a different query."""
+    from .mir_protocol import struct_fields
+    src = open(os.path.join(REPO, "src/internal/query.rs")).read()
+    sf = struct_fields(src, "Select")
+    jv = enum_variants(src, "Join")
+    for need in ("from", "column_names", "condition"):
+        if need not in sf:
+            raise EncodingError("Select has no field %s" % need)
+    fn = mir.find(r"query::.*::format_for_join$")
+    g = Group("join_operand", ["query::Select::format_for_join"], confirm=_c19_join_confirm, note="a join operand is printed as a bare table name only if it has no "
+              "projection, no condition and is a plain table; otherwise as '(' <the sub-select> ')'")
+    for vi, vname in enumerate(jv):
+        no_cols = ctx.fresh_bool("no_projection_" + vname)
+        no_cond = ctx.fresh_bool("no_condition_" + vname)
+
+        def m_is_empty(ex, callee, args, pc, events, b=no_cols):
+            return [(pc, events, BoolV(b.term))]
+
+        def m_is_none(ex, callee, args, pc, events, b=no_cond):
+            return [(pc, events, BoolV(b.term))]
+
+        def m_display_self(ex, callee, args, pc, events):
+            return [(pc, events + [("sub-select",)], EnumV(variant=0, fields=[TupleV([])]))]
+
+        models = [(r"Vec::<String>::is_empty$", m_is_empty), (r"Option::<Expr>::is_none$", m_is_none),
+                  (r"<query::Select as std::fmt::Display>::fmt$", m_display_self)] + c19_models(None)
+        ex = M.Exec(mir, ctx, models=models)
+        sel = [OpaqueV("select." + f) for f in sf]
+        sel[sf.index("from")] = EnumV(variant=vi, fields=[OpaqueV("table-name"), OpaqueV("rhs"), OpaqueV("on")])
+        ex.new_obj("select", sel)
+        outs = ex.run(fn, [RefV(M.ObjV("select")), OpaqueV("formatter")])
+        outs = outs + ex._pending_panics
+        ex._pending_panics = []
+        get = {"no_projection": no_cols.term, "no_condition": no_cond.term}
+        plain = s_and([no_cols.term, no_cond.term]) if vname == "Table" else "false"
+        for k, o in enumerate(outs):
+            if o.kind == "unreachable":
+                continue
+            if o.kind == "panic":
+                g.queries.append(Query("panic_%s_%d" % (vname, k), o.pc, "unsat", get=get, note=o.msg))
+                continue
+            evs = list(o.events)
+            bare = len(evs) == 1 and evs[0][0] == "dyn"
+            wrapped = len(evs) == 3 and evs[0] == ("tok", "(") and evs[1] == ("sub-select",) and evs[2] == ("tok", ")")
+            if bare:
+                g.queries.append(Query("bare_%s_%d" % (vname, k), o.pc + [s_not(plain)], "unsat", get=get,
+                                       note="join operand (%s) printed as a bare table name although it has a projection / a condition / is a join" % vname))
+            elif not wrapped:
+                g.queries.append(Query("shape_%s_%d" % (vname, k), o.pc, "unsat", get=get, note="join operand printed as %r" % (evs,)))
+            g.witness.append(Query("w_%s_%d" % (vname, k), o.pc, "sat"))
+    return g
 
 
 # --------------------------------------------------------------------------
@@ -819,6 +883,38 @@ def mir_path_of(mir):
 # C20 / C09: the integer prefix of Table::read_rows (row size, row count, limit)
 # --------------------------------------------------------------------------
 
+def _c20_confirm_rows(model, native):
+    D, S = model.get("data_length"), model.get("row_size")
+    if D is None or not S:
+        return None, "model has no usable data_length / row_size"
+    rows = D // S
+    if rows > 300000:
+        return None, "counterexample needs %d rows: too large to replay" % rows
+    out = native("native::c20::replay_c20", {"rows": rows})
+    if not out.get("_ran"):
+        return None, "native replay did not run"
+    if out.get("_panicked"):
+        return True, "read_rows panicked natively on %d rows: %s" % (rows, out.get("_panic_msg"))
+    res = str(out.get("read_rows"))
+    want_err = rows > 65536
+    got_err = res.startswith("err")
+    ok_count = (not got_err) and res == "ok:%d" % rows
+    return ((want_err != got_err) or (not got_err and not ok_count)), "%d rows of one Int16 column: read_rows gave %s (the limit is 65536 rows)" % (rows, res)
+
+
+def _c20_confirm_columns(model, native):
+    n = model.get("num_columns")
+    if n is None or n > 5000:
+        return None, "no usable column count in the model"
+    out = native("native::c20::replay_c20", {"num_columns": n})
+    if not out.get("_ran"):
+        return None, "native replay did not run"
+    if out.get("_panicked"):
+        return True, "create_table panicked natively with %d columns" % n
+    ok = out.get("create_table_ok") == 1
+    return (ok != (1 <= n <= 32)), "create_table with %d columns returned %s (limit: 32)" % (n, "Ok" if ok else "Err")
+
+
 def c20_groups(mir, ctx):
     """read_rows itself is out of Kani's reach (measured); its integer prefix --
     from the seek result to the row-limit check -- is loop-free MIR once the
@@ -882,7 +978,7 @@ def c20_groups(mir, ctx):
     LIMIT = 65536
     rows = "(div %s %s)" % (D.term, S.term)
     over = "(and (> %s 0) (> %s %d))" % (S.term, rows, LIMIT)
-    g = Group("row_limit_reader", fns, note="for every stream length and row size: no division by zero / overflow panic; the "
+    g = Group("row_limit_reader", fns, confirm=_c20_confirm_rows, note="for every stream length and row size: no division by zero / overflow panic; the "
               "reader allocates only when data_length / row_size <= 65536 and reports an error exactly when it is larger")
     n_alloc = n_err = 0
     for k, o in enumerate(outs):
@@ -915,6 +1011,74 @@ def c20_groups(mir, ctx):
 # driver
 # --------------------------------------------------------------------------
 
+def c20_columns_group(mir, ctx):
+    """The argument checks at the head of create_table_with_name (loop-free prefix up to the
+    duplicate-name scan): the 32-column limit of the property, as an error, exactly at the boundary."""
+    fn = mir.find(r"package::.*::create_table_with_name$")
+    name_ok = ctx.fresh_bool("table_name_valid")
+    any_pk = ctx.fresh_bool("has_primary_key")
+    n = ctx.fresh_int("num_columns", "usize")
+
+    def m_const(v):
+        return lambda ex, callee, args, pc, events: [(pc, events, v)]
+
+    def m_is_empty(ex, callee, args, pc, events):
+        return [(pc, events, BoolV("(= %s 0)" % n.term))]
+
+    models = [
+        (r"<String as Deref>::deref$", m_const(OpaqueV("name"))),
+        (r"Table::is_valid_name$", m_const(BoolV(name_ok.term))),
+        (r"Vec::<Column>::is_empty$", m_is_empty),
+        (r"Vec::<Column>::len$", m_const(n)),
+        (r"<Vec<Column> as Deref>::deref$", m_const(OpaqueV("slice"))),
+        (r"impl \[Column\]>::iter$", m_const(OpaqueV("iter"))),
+        (r"as Iterator>::any::<", m_const(BoolV(any_pk.term))),
+        (r"Argument::<'_>::new_(display|debug)::<", m_const(OpaqueV("fmtarg"))),
+        (r"Arguments::<'_>::new::<", m_const(OpaqueV("fmtargs"))),
+        (r"^format$", m_const(OpaqueV("string"))), (r"^must_use::<String>$", m_const(OpaqueV("string"))),
+    ]
+
+    def stop_at(f, bb, term):
+        if "std::io::Error::new::<" in term:
+            return "error"
+        if "HashSet::<&str>::new" in term:
+            return "passed"
+        return None
+
+    ex = M.Exec(mir, ctx, models=models, stop_at=stop_at)
+    pkg = RefV(OpaqueV("package"))
+    outs = ex.run(fn, [pkg, OpaqueV("table_name"), OpaqueV("columns")])
+    outs = outs + ex._pending_panics
+    ex._pending_panics = []
+    LIMIT = 32
+    accepted = "(and %s (>= %s 1) (<= %s %d) %s)" % (name_ok.term, n.term, n.term, LIMIT, any_pk.term)
+    get = {"num_columns": n.term, "table_name_valid": name_ok.term, "has_primary_key": any_pk.term}
+    g = Group("column_limit", ["package::Package::create_table_with_name (argument checks before the duplicate-name scan)"],
+              confirm=_c20_confirm_columns, note="for every number of columns: create_table gets past its argument checks exactly when the name is valid, there are "
+                   "1..=32 columns and one of them is a primary key; 33 or more columns (and 0) are refused with an error, never a panic")
+    np = ne = 0
+    for k, o in enumerate(outs):
+        if o.kind == "panic":
+            g.queries.append(Query("panic_%d" % k, o.pc, "unsat", get=get, note=o.msg))
+        elif o.kind == "stopped" and o.msg == "passed":
+            np += 1
+            g.queries.append(Query("passed_outside_limit_%d" % k, o.pc + [s_not(accepted)], "unsat", get=get,
+                                   note="the argument checks are passed with an invalid name / no column / more than 32 columns / no primary key"))
+            g.witness.append(Query("passed_w_%d" % k, o.pc + ["(= %s %d)" % (n.term, LIMIT)], "sat"))
+        elif o.kind == "stopped" and o.msg == "error":
+            ne += 1
+            g.queries.append(Query("error_inside_limit_%d" % k, o.pc + [accepted], "unsat", get=get,
+                                   note="an argument error is reported for a valid name with 1..=32 columns and a primary key"))
+            g.witness.append(Query("error_w_%d" % k, o.pc, "sat"))
+    if np == 0 or ne < 3:
+        raise EncodingError("create_table prefix: expected one accepting and >= 3 refusing paths (found %d / %d)" % (np, ne))
+    return [g]
+
+
+def c20_all(mir, ctx):
+    return c20_groups(mir, ctx) + c20_columns_group(mir, ctx)
+
+
 def _proto(which):
     def build(mir, ctx):
         from .mir_protocol import protocol_groups
@@ -922,9 +1086,9 @@ def _proto(which):
     return build
 
 
-BUILDERS = {"C18": c18_groups, "C19": c19_groups, "C14": c14_groups, "C20": c20_groups, "C09": c20_groups,
+BUILDERS = {"C18": c18_groups, "C19": c19_groups, "C14": c14_groups, "C20": c20_all, "C09": c20_groups,
             "C01": _proto({"mutators", "finish", "close"}), "C10": _proto({"mutators", "finish"}),
-            "C15": _proto({"finish", "close"})}
+            "C15": _proto({"finish", "close"}), "C16": _proto({"readonly"})}
 
 
 def native_confirm_c18(vals, work):
